@@ -180,6 +180,22 @@ func CreateVirtTableBaseDirs(vTableBaseDir string, vTableMappingsDir string,
 	return nil
 }
 
+// ValidateIndexName rejects index (and alias) names that cannot be used as a directory / file name
+// below the data directory: the name is concatenated into the paths of segment directories, mapping
+// files and alias files, so a ".." path element would make those paths point outside of the data
+// directory.
+func ValidateIndexName(name string) error {
+	if strings.ContainsRune(name, 0) {
+		return fmt.Errorf("invalid index or alias name %q: must not contain a NUL byte", name)
+	}
+	for _, elem := range strings.Split(name, "/") {
+		if elem == ".." {
+			return fmt.Errorf("invalid index or alias name %q: must not contain a \"..\" path element", name)
+		}
+	}
+	return nil
+}
+
 // addVirtualTableHelper adds the given virtual table to the global virtual table map and writes it to the file
 // It returns true if a virtual table was added to the file, false otherwise
 func addVirtualTableHelper(vTableMap map[string]struct{}, orgid int64) (bool, error) {
@@ -233,6 +249,11 @@ func addVirtualTableHelper(vTableMap map[string]struct{}, orgid int64) (bool, er
 }
 
 func AddVirtualTable(tname *string, orgid int64) error {
+	if err := ValidateIndexName(*tname); err != nil {
+		log.Errorf("AddVirtualTable: %v", err)
+		return err
+	}
+
 	vTableMap := make(map[string]struct{})
 	vTableMap[*tname] = struct{}{}
 
@@ -306,6 +327,11 @@ func AddVirtualTableAndMapping(tname *string, mapping *string, orgid int64) erro
 }
 
 func AddMapping(tname *string, mapping *string, orgid int64) error {
+	if err := ValidateIndexName(*tname); err != nil {
+		log.Errorf("AddMapping: %v", err)
+		return err
+	}
+
 	var sb1 strings.Builder
 	sb1.WriteString(VTableMappingsDir)
 	if orgid != 0 {
@@ -390,6 +416,14 @@ func AddAliases(indexName string, aliases []string, orgid int64) error {
 		return errors.New("len of aliases is 0")
 	}
 
+	// alias names become file names too (FlushAliasMapToFile)
+	for _, alias := range aliases {
+		if err := ValidateIndexName(alias); err != nil {
+			log.Errorf("AddAliases: %v", err)
+			return err
+		}
+	}
+
 	currentAliases, err := GetAliases(indexName, orgid)
 	if err != nil {
 		log.Errorf("AddAliases: For indexName=%v, GetAliases returned err=%v", indexName, err)
@@ -445,6 +479,10 @@ func GetAliasesAsArray(indexName string, orgid int64) ([]string, error) {
 }
 
 func GetAliases(indexName string, orgid int64) (map[string]bool, error) {
+	if err := ValidateIndexName(indexName); err != nil {
+		return map[string]bool{}, err
+	}
+
 	var sb1 strings.Builder
 	sb1.WriteString(VTableAliasesDir)
 	if orgid != 0 {
@@ -480,6 +518,10 @@ func GetAliases(indexName string, orgid int64) (map[string]bool, error) {
 }
 
 func writeAliasFile(indexName *string, allnames map[string]bool, orgid int64) error {
+	if err := ValidateIndexName(*indexName); err != nil {
+		return err
+	}
+
 	var sb1 strings.Builder
 	sb1.WriteString(VTableAliasesDir)
 	if orgid != 0 {
@@ -641,6 +683,10 @@ func RemoveAliases(indexName string, aliases []string, orgid int64) error {
 }
 
 func removeAliasFile(indexName *string, orgid int64) error {
+	if err := ValidateIndexName(*indexName); err != nil {
+		return err
+	}
+
 	var sb1 strings.Builder
 	sb1.WriteString(VTableAliasesDir)
 	if orgid != 0 {
